@@ -68,8 +68,8 @@ struct cmb_resourcepool *cmb_resourcepool_create(void)
 
 /*
  * holder_queue_check - Test if heap_tag *a should go before *b. If so, return
- * true. Ranking lower priority (dsortkey) before higher, then LIFO based on handle
- * value. Used to identify the most likely victim for resource preemption, hence
+ * true. Ranking lower priority (isortkey) before higher, then LIFO based on the
+ * order in which the holders got their first units. Used to identify the most likely victim for resource preemption, hence
  * opposite order of the waiting room.
  */
 static bool holder_queue_check(const struct cmi_heap_tag *a,
@@ -83,7 +83,9 @@ static bool holder_queue_check(const struct cmi_heap_tag *a,
         ret = true;
     }
     else if (a->isortkey == b->isortkey) {
-        if (a->key > b->key) {
+        /* Latest first, by sequence number in the third payload word (not by
+         * memory address, to keep runs reproducible) */
+        if ((uint64_t)(a->item[2]) > (uint64_t)(b->item[2])) {
             ret = true;
         }
     }
@@ -354,9 +356,10 @@ static void update_record(struct cmb_resourcepool *rpp,
         cmi_slist_push(&(pp->resources), &(hp->listhead));
 
         /* Not held already, create a new resource pool holder entry for the process */
+        const uint64_t seqno = hhp->item_counter + 1u;
         const uint64_t new_key = cmi_hashheap_enqueue(hhp,
                                                      (void *)pp, (void *)amount,
-                                                     NULL, NULL,
+                                                     (void *)seqno, NULL,
                                                      key, 0.0, pp->priority);
         cmb_assert_debug(new_key == key);
     }
